@@ -351,6 +351,9 @@ theorem settle_inv {x : Option Nat} {w : World} (h : WInvX x w) {e : Ent} (he : 
     rw [a1] at hc'; injection hc' with hc'; subst hc'
     rw [a2] at hcd; injection hcd with hcd; subst hcd
     exact (h.connReq cr c' d' a1 a2 a3).2 e he hd
+  · intro p pr cr c hp' hcq hc hcd
+    have hnf := h.connReqLive p pr cr c d hp' hcq hc hcd
+    exact (h.connReq cr c d hc hcd hnf).2 e he hd
 
 /-- MQTTProtocol.handlePUBACK on a connected, live protocol: no exception, invariant preserved -/
 theorem handlePUBACK_inv {w : World} (h : WInv w) (p : Nat) (ppr : Proto) (hpp : w.protos.get? p = some ppr)
